@@ -22,7 +22,7 @@ from . import common, rel, sess, tlc
 
 TIERS = {
     "quick": dict(sample=110, sim_num=40, sim_depth=4, chunks=10, big=10),
-    "thorough": dict(sample=1500, sim_num=700, sim_depth=5, chunks=16, big=60),
+    "thorough": dict(sample=1500, sim_num=120, sim_depth=4, chunks=16, big=60),
 }
 FORMS = ["optimized", "lowered", "logical"]
 
